@@ -144,9 +144,13 @@ def run(ctx):
         tie.compute()
         d = os.path.join(eng.scratch, "ties")
         tie.materialise(d)
-        for fmt in (["-v", "--no-progress"], ["--json", "--no-progress"], ["--json", "--json-version=2", "--no-progress"]):
+        # the last two: ROOT arguments naming objects that walked references point at too — which spelling is cited depends on
+        # the order in which references and ROOTs are handed to the scan, which must be fixed
+        for fmt in (["-v", "--no-progress"], ["--json", "--no-progress"], ["--json", "--json-version=2", "--no-progress"],
+                    ["-v", "--no-progress", "--branches", "b3"], ["-v", "--no-progress", "--branches", "b3", "refs/heads/b0"],
+                    ["--json", "--no-progress", "--tags", "b5"]):
             first = None
-            for k in range(10 if quick else 40):
+            for k in range((10 if len(fmt) < 4 else 30) if quick else 60):
                 rc, out, err = S.run_sizer(ctx["bins"]["sizer"], d, fmt, env=S.clean_env({"GOMAXPROCS": str([16, 1, 2, 4][k % 4])}))
                 res.case(("ties", tuple(fmt), k), True)
                 if rc != 0:
